@@ -28,6 +28,12 @@ Fixpoint tr (M : list (list Q)) (n : nat) : list (list Q) :=
 Definition mm (A B : list (list Q)) (n : nat) : list (list Q) := map (fun r => mv (tr B n) r) A.
 Definition outer (a b : list Q) : list (list Q) := map (fun x => map (fun y => Qred (x * y)) b) a.
 Definition mneg (A : list (list Q)) := map (map Qopp) A.
+Definition madd (A B : list (list Q)) : list (list Q) := map (fun p => map (fun q => Qred (fst q + snd q)) (combine (fst p) (snd p))) (combine A B).
+Definition mscale (c : Q) (A : list (list Q)) : list (list Q) := map (map (fun x => Qred (c * x))) A.
+Definition mzero (n : nat) : list (list Q) := repeat (repeat 0 n) n.
+(* sum_i c_i q_i (x) q_i over (c_i, q_i) *)
+Definition dyadsum (n : nat) (l : list (Q * list Q)) : list (list Q) :=
+  fold_left (fun acc p => madd acc (mscale (fst p) (outer (snd p) (snd p)))) l (mzero n).
 Definition ident (n : nat) : list (list Q) := map (fun i => map (fun j => if Nat.eqb i j then 1 else 0) (seq 0 n)) (seq 0 n).
 '''
 HEADER_F2 = '''From Coq Require Import Reals List.
@@ -338,7 +344,29 @@ def f3_cases(ctx, pym, n):
         if t % 3 == 0:
             A = (A + A.T) / 2
         tol = qlit(Fraction(1, 10 ** 8))
-        if t % 2 == 0:
+        if t % 3 == 2 and k >= 2:
+            # EigenSolve (dense, symmetric, generalised) with eigenvalue seeds only
+            Qo, _ = np.linalg.qr(rng.standard_normal((k, k)))
+            Ae = Qo @ np.diag(np.arange(1, k + 1) * 1.5 + rng.random(k) * 0.2) @ Qo.T
+            Ae = (Ae + Ae.T) / 2
+            Mb = rng.standard_normal((k, k))
+            Be = (Mb @ Mb.T) / k + np.eye(k)
+            dW = rng.integers(-3, 4, size=k).astype(float)
+            sA, sB2, sW, sQ = pym.Signal('A', Ae.copy()), pym.Signal('B', Be.copy()), pym.Signal('W'), pym.Signal('Q')
+            m = pym.EigenSolve([sA, sB2], [sW, sQ])
+            m.response()
+            sW.sensitivity = dW.copy()
+            m.sensitivity()
+            Wv, Qm = sW.state, sQ.state
+            pairs = '[' + '; '.join(f'({qlit(Fraction(float(dW[i])))}, {ql(F(Qm[:, i]))})' for i in range(k)) + ']'
+            lpairs = '[' + '; '.join(f'({qlit(Fraction(float(-dW[i] * 1.0)) * Fraction(float(Wv[i])))}, {ql(F(Qm[:, i]))})' for i in range(k)) + ']'
+            eig = ' && '.join(f'Ql_close {tol} (mv {ql(F(Ae))} {ql(F(Qm[:, i]))}) (map (fun x => Qred ({qlit(Fraction(float(Wv[i])))} * x)) (mv {ql(F(Be))} {ql(F(Qm[:, i]))})) && '
+                              f'Qclose {tol} (dot {ql(F(Qm[:, i]))} (mv {ql(F(Be))} {ql(F(Qm[:, i]))})) 1' for i in range(k))
+            checks.append(f'({eig} && Qll_close {tol} (dyadsum {k} {pairs}) {ql(F(sA.sensitivity))} && '
+                          f'Qll_close {tol} (dyadsum {k} {lpairs}) {ql(F(sB2.sensitivity))})')
+            labels.append(('EigenSolve', k))
+            ctx.count('f3:EigenSolve')
+        elif t % 2 == 0:
             b = rng.integers(-4, 5, size=k).astype(float)
             w = rng.integers(-3, 4, size=k).astype(float)
             sA, sb, sx = pym.Signal('A', A.copy()), pym.Signal('b', b.copy()), pym.Signal('x')
@@ -443,7 +471,7 @@ def run(ctx):
     checks, labels = f3_cases(ctx, pym, 60 if quick else 600)
     failing, err = vlib.run_cases(ctx, 'f3', HEADER_F3, checks, chunk=100)
     ctx.obligation('correspondence:F3 case files evaluated', 'correspondence', not err, err)
-    ctx.obligation('correspondence:F3 secant premises hold for LinSolve/Inverse outputs', 'correspondence', not failing and not err, str(failing[:10]))
+    ctx.obligation('correspondence:F3 secant premises hold for LinSolve/Inverse/EigenSolve outputs', 'correspondence', not failing and not err, str(failing[:10]))
     if err:
         ctx.violation('correspondence', 'F3', 'case files compile', 'harness', dict(error=err[-3000:]), theorem='cases_f3')
     for idx in failing[:10]:
@@ -473,6 +501,12 @@ def run(ctx):
                 try:
                     r = modzoo.adjoint_check(e, pym, rng, seed_kind=seed_kind, dyad_seed=dyad)
                 except Exception as ex:
+                    if e['name'] == 'EigenSolve' and 'sparse' in str(e['cfg']) and 'exactly singular' in str(ex) \
+                            and '_sparse_eigvec_sens' in ''.join(__import__('traceback').format_exception(ex)):
+                        ctx.violation('impl-violates', 'EigenSolve._sparse_eigvec_sens', 'sensitivity completes without raising',
+                                      'sparse pencil whose shifted matrix A - lambda_i B factorises with an exactly zero pivot',
+                                      dict(cfg=str(e['cfg']), seed_kind=seed_kind), got=str(ex)[:200])
+                        continue
                     ctx.violation('impl-violates', e['name'], 'response/sensitivity complete without raising', 'zoo entry',
                                   dict(cfg=str(e['cfg']), seed_kind=seed_kind, dyad_seed=dyad), got=f'{type(ex).__name__}: {str(ex)[:500]}')
                     continue
